@@ -264,8 +264,22 @@ func (c *Ctx) checkSearchScope() {
 			r.Check(core.IsFieldLoad(liveTags)(dcall.Call.Args[0]), "C19.2-search-scope", base+" / compared with the searcher's own tags", c.pos(dcall), "", "masked terms are compared with something other than the searcher's tags")
 			gNone := core.Guard{Name: "len(restr)==0", Match: func(a core.CondAtom) (bool, bool) {
 				// len(restr) > 0  ==  0 < len(restr)
+				// the list that is tested is the result of the comparison on every path: a merge with "nothing
+				// left" from a path that skipped the comparison does not count
+				var allFrom func(x ssa.Value, d int) bool
+				allFrom = func(x ssa.Value, d int) bool {
+					if phi, isPhi := core.Strip(x).(*ssa.Phi); isPhi && d < 4 {
+						for _, e := range phi.Edges {
+							if !allFrom(e, d+1) {
+								return false
+							}
+						}
+						return len(phi.Edges) > 0
+					}
+					return core.Derives(x, errResultOf(dcall, 0), false)
+				}
 				isRestr := func(v ssa.Value) bool {
-					return isLenOf(func(x ssa.Value) bool { return core.Derives(x, errResultOf(dcall, 0), false) })(v)
+					return isLenOf(func(x ssa.Value) bool { return allFrom(x, 0) })(v)
 				}
 				if a.Op == token.LSS && core.IsConstInt(0)(a.X) && isRestr(a.Y) {
 					return true, false
